@@ -932,7 +932,9 @@ class C08(CleanerCheck):
             "host, fqdn, short name, MAC in ':'/'-' and upper/lower notation, keyword, pattern text, password assignment with 9 "
             "separators, fillers, 22 delimiters + in 10% of cases the 8 characters str.splitlines() breaks at) in marker or free mode "
             "(tokens at line start/end); entry points content list / single string / clean_file; addresses next to the exempt "
-            "127.0.0.1; hosts matching the domain only through its unescaped dot; with obfuscation off 60% of multi-spec histories "
+            "127.0.0.1; IPv6 addresses in up to three notations; width-mode (netstat) specs with column formatting; hosts matching "
+            "the domain only through its unescaped dot; another Cleaner for another system built mid-history (20%); with "
+            "obfuscation off 60% of multi-spec histories "
             "are cleaned by concurrent SimPool tasks sharing the Cleaner (seeded walk / PCT schedule, pre-emption at line events in "
             "insights/cleaner); oracle = no planted sensitive "
             "token survives unless exempt or equal to a substitute already issued in this history; non-trivial = >= 2 planted "
@@ -963,7 +965,9 @@ class C09(CleanerCheck):
     rule = ("case = as C08 (width off) with small token pools recurring within a line, across lines and across specs, a generated "
             "suffix pair of host names in 25% of cases, an address that is a textual prefix of another in 20%, a collision "
             "regime (4%) planting IPv4 originals equal to issued substitutes and a mac-chain regime (4% of cases with MAC "
-            "obfuscation) planting an original MAC equal to the substitute of another in every order; oracle = differential: every input line rebuilt with "
+            "obfuscation) planting an original MAC equal to the substitute of another in every order; IPv6 addresses in several "
+            "notations (same address -> same substitute address); width-mode specs (a reported original must be gone); "
+            "oracle = differential: every input line rebuilt with "
             "each planted token replaced by the mapping the cleaner REPORTS must equal the cleaner's output line for line across "
             "all specs; injectivity of IPv4 / host mappings; no phantom originals; facts file (generate_rhsm_facts into a scratch "
             "dir) carries the same pairs")
@@ -992,7 +996,9 @@ class C10(CleanerCheck):
             "line must be consistent with one total order; marker mode: output markers are a sub-sequence of input markers and "
             "each output line carries exactly one; an all-blank result is [] (clean_file: the file is removed); concurrent histories "
             "(obfuscation off) must equal the same history run serially; end-to-end share: one collection repeated three times in "
-            "one process stores identical content")
+            "one process stores identical content and is compared across hash seeds (filter budgets that run out); the knob "
+            "MAX_LINE_LENGTH turned down to 12-80 in 12%; a probe made of the substitutes a history is about to issue is cleaned "
+            "by a fresh Cleaner before and after the history and must come out the same")
 
     def generate(self, st, tier):
         if st.knob.random() < self.e2e_share:
